@@ -107,6 +107,7 @@ def run(tier, seed):
         {"CARGO_BUILD_JOBS": "7", "RUST_BACKTRACE": "1", "LANG": "ja_JP.UTF-8"},
     ]
     panics = 0
+    respelled = 0
     for b in range(builds):
         # instantiate every source 2-5 times under fresh case ids, in shuffled order
         inst = []
@@ -118,7 +119,16 @@ def run(tier, seed):
                 cid = "i%d_%d_%s" % (b, d, c.id)
                 # every instance sits at its own line / column (blank lines and a block comment in front of it)
                 shift = "\n" * rng.randint(0, 40) + ("/*" + "-" * rng.randint(0, 30) + "*/ " if rng.random() < 0.7 else "")
-                inst.append(core.Case(cid, shift + c.src.replace(c.id, "IDENT"), run=False, expect="expand"))
+                src_i = c.src.replace(c.id, "IDENT")
+                if rng.random() < 0.4:
+                    # the same tokens in another spelling: a doc comment `/// text` *is* the attribute `#[doc = " text"]` (and `//! text`
+                    # is `#![doc = " text"]`) by the time the macro sees it - an expansion that tells them apart reads the source file
+                    import re as _re
+                    esc_ = lambda t_: t_.replace("\\", "\\\\").replace('"', '\\"')
+                    src_i = _re.sub(r"(?m)^(\s*)///(?!/)(.*)$", lambda m_: '%s#[doc = "%s"]' % (m_.group(1), esc_(m_.group(2))), src_i)
+                    src_i = _re.sub(r"(?m)^(\s*)//!(.*)$", lambda m_: '%s#![doc = "%s"]' % (m_.group(1), esc_(m_.group(2))), src_i)
+                    respelled += 1
+                inst.append(core.Case(cid, shift + src_i, run=False, expect="expand"))
         rng.shuffle(inst)
         ws = core.Workspace(PROP, "b%d" % b, expand_only=True, vattr=True, nshards=rng.choice([5, 8, 16, 11]))
         ws.extend(inst)
@@ -167,7 +177,7 @@ def run(tier, seed):
                     "observations": len(g["obs"]), "processes": len({(b, p) for b, p, _ in g["obs"]}),
                     "distinct_outputs": len(g["outs"])}, limit=3)
     rep.extra.update({"expansion_records": total_records, "compiler_processes": len(procs), "builds": builds,
-                      "input_groups": len(groups), "records_without_end": panics,
+                      "input_groups": len(groups), "records_without_end": panics, "instances_with_doc_comments_respelled_as_attributes": respelled,
                       "max_observations_per_group": max((len(g["obs"]) for g in groups.values()), default=0)})
     core.floors(rep, expansion_records=n * 3, compiler_processes=10)
     return rep.finish({})
